@@ -1,13 +1,13 @@
 #!/bin/bash
 # Runs every seeded change under /verif/seeded against the check of its property (quick tier; if that one does not fire,
 # the checks named in meta.json "also_try") and records the outcome in meta.json
-cd /verif
+cd "$(dirname "$0")"; ROOT=$PWD
 for d in seeded/*${1:-}/; do
   id=$(basename $d); prop=${id%%-*}
   also=$(python3 -c "import json;print(' '.join(json.load(open('$d/meta.json')).get('also_try',[])))")
   caught=""; out=""
   for p in $prop $also; do
-    res=$(./tools_mutant.sh /verif/$d/patch.diff $p quick 2>&1 | tail -1)
+    res=$(./tools_mutant.sh "$ROOT/$d/patch.diff" $p quick 2>&1 | tail -1)
     case "$res" in
       *"rc=1"*) caught="$caught $p"; out="$res"; [ "$p" = "$prop" ] && break;;
       *"patch does not apply"*) out="patch does not apply to the current tree"; break;;
